@@ -6,6 +6,13 @@ NOTES = ('Static analysis only: every verdict is computed from the ast of /repo/
          'Exit 2 + ANALYSIS-ERROR means the analysis could not decide (never a verdict).')
 
 CHECKS = {
+    'C19': {
+        'level': 'What nd_scipy.Jacobian / Gradient hand to scipy approx_derivative: method-name mapping against the set accepted by the installed SciPy '
+                 '(source parsed with ast), every keyword in the signature, fun / step (as rel_step) / args / kwargs / bounds (5 box shapes) / sparsity '
+                 'forwarded unchanged, Gradient flatten-in squeeze-out. Accuracy and bound handling inside SciPy are trusted.',
+        'note': 'SciPy is trusted and never imported; only its source is parsed.',
+        'technique': 'abstract interpretation of __call__ with approx_derivative replaced by a recording stub; signature read from the SciPy AST',
+    },
     'C04': {
         'level': 'Exact 2-D Taylor signature of every cell of the six Hessian quotients with a distinct symbolic step per coordinate (exact on quadratics, '
                  'correct divisor, error powers modelled by the Richardson stage; to total order 6, thorough 8), exact symmetry / full coverage of the fill, '
